@@ -21,7 +21,16 @@ func c01Cone(c *eng.Ctx, r *eng.Report, rule string) *eng.Cone {
 	if !r.Anchor(ex != nil, rule, "core.(*VMExecutor).Execute") {
 		return nil
 	}
-	return c.ConeOf([]*ssa.Function{ex}, func(fn *ssa.Function) bool {
+	// the roots a verifier compares are computed from the execution's output by
+	// calcReceiptsTree / calcTxTree: part of the same function of the inputs
+	entries := []*ssa.Function{ex}
+	for _, n := range []string{"calcReceiptsTree", "calcTxTree"} {
+		f := c.Func("core", n)
+		if r.Anchor(f != nil, rule, "core."+n) {
+			entries = append(entries, f)
+		}
+	}
+	return c.ConeOf(entries, func(fn *ssa.Function) bool {
 		if eng.FuncName(fn) == "utility.GetTime" {
 			return false
 		}
@@ -54,6 +63,7 @@ var reviewedND = map[string][2]string{
 	"shared-object:service.MinerManagerImpl":                          {"stateless-service", "façade over the AccountDB passed in; its methods called from the cone write none of its fields (re-checked)"},
 	"shared-object:service.RefundManagerImpl":                         {"stateless-service", "façade over the AccountDB passed in"},
 	"shared-object:service.RewardCalculatorImpl":                      {"stateless-service", "pure calculation over the block and the AccountDB passed in"},
+	"shared-object:service.txpoolInstance":                            {"receiver-blind", "the transaction pool singleton; the only method executors call on it, ProcessFee, never looks at the pool — it moves the fee inside the AccountDB passed in (re-checked: no callee reads or writes its receiver)"},
 	"shared-object:middleware.AccountDBManagerInstance":               {"chain-store", "GetLatestStateDB is only a nil-argument fallback of MinerManager getters; executors always pass the state under execution"},
 	"shared-object:core.groupChainImpl":                               {"chain-store", "group lookups, reviewed call by call in storeReads (R1.1s)"},
 	"shared-object:core.blockChainImpl":                               {"chain-store", "header lookup below the fork window, reviewed in storeReads (R1.1s)"},
@@ -93,7 +103,7 @@ var storeReads = map[string]string{
 
 func c01(c *eng.Ctx, r *eng.Report) {
 	r.Explain = "Replica determinism of block execution as cone purity plus ordering rules: " +
-		"R1.1 the call-graph cone of VMExecutor.Execute (≈1,090 functions, cut at logging/mysql/notify) contains no unreviewed nondeterminism source — map range, wall clock, goroutine, select/channel, sync.Map.Range, math/rand, crypto/rand, environment reads, package-variable stores — and every reviewed hit still has the mechanically checkable shape of its class (no early exit from a map range, appended slices sorted before use, clock value only on the casting edge or only into a logger); reads of the block/group stores from the cone are the reviewed ones; " +
+		"R1.1 the call-graph cone of VMExecutor.Execute and of the two root functions applied to its output, calcReceiptsTree and calcTxTree (≈1,090 functions, cut at logging/mysql/notify) contains no unreviewed nondeterminism source — map range, wall clock, goroutine, select/channel, sync.Map.Range, math/rand, crypto/rand, environment reads, package-variable stores — and every reviewed hit still has the mechanically checkable shape of its class (no early exit from a map range, appended slices sorted before use, clock value only on the casting edge or only into a logger); reads of the block/group stores from the cone are the reviewed ones; " +
 		"R1.6 every module type whose methods write their own receiver inside the cone is a reviewed per-execution, state or value type (never an executor/manager/service instance that outlives the execution), and no package-level variable holds an instance of one; " +
 		"R1.2 transactions are sorted before execution unless casting, and the proposer sorts before running them; R1.3 every failed executor run is followed by RevertToSnapshot of the snapshot taken immediately before it; R1.4 no fused multiply-add shape in floating-point code of the cone; R1.5 receipt JSON contains no order-unstable map. " +
 		"Not decided: that the deterministic code computes the right root; the sub-chain reward call; float rounding across architectures beyond R1.4."
@@ -207,6 +217,44 @@ func c01Shared(c *eng.Ctx, r *eng.Report, cone *eng.Cone, shared map[string][]en
 				}
 			case "reset-pool":
 				// decided once for the whole pool below
+			case "receiver-blind":
+				// every method body the site can dispatch to ignores its receiver
+				n := 0
+				if node := c.CG().Nodes[h.Fn]; node != nil {
+					for _, e := range node.Out {
+						if e.Site != h.Instr || e.Callee.Func == nil {
+							continue
+						}
+						f := e.Callee.Func
+						for f.Synthetic != "" && len(f.Blocks) == 1 { // interface / bound thunk
+							next := (*ssa.Function)(nil)
+							for _, in := range f.Blocks[0].Instrs {
+								if cl, isCl := in.(ssa.CallInstruction); isCl && cl.Common().StaticCallee() != nil {
+									next = cl.Common().StaticCallee()
+								}
+							}
+							if next == nil {
+								break
+							}
+							f = next
+						}
+						n++
+						if !eng.InMod(f) || f.Blocks == nil || len(f.Params) == 0 {
+							msg = "call " + h.Detail + " dispatches to " + eng.FuncName(f) + ", which cannot be inspected (" + c.Pos(h.Pos) + ")"
+							break
+						}
+						if refs := f.Params[0].Referrers(); refs != nil {
+							for _, ref := range *refs {
+								if _, dbg := ref.(*ssa.DebugRef); !dbg {
+									msg = eng.FuncName(f) + " uses the shared object it is called on (" + c.Pos(ref.Pos()) + "): what it returns or does then depends on what this node's pool holds — transactions received, executed index, evicted set — not only on (parent state, header, transaction list)"
+								}
+							}
+						}
+					}
+				}
+				if n == 0 && msg == "" {
+					msg = "call " + h.Detail + " has no resolved callee (" + c.Pos(h.Pos) + ")"
+				}
 			case "stateless-service", "chain-store":
 				f := call.Call.StaticCallee()
 				if f == nil || !eng.InMod(f) || len(f.Params) == 0 {
